@@ -115,6 +115,39 @@ def cmp_canon(c):
     return (type(c.ops[0]), U(c.left), U(c.comparators[0]))
 
 
+def mirrored(c):
+    """the same comparison with its operands exchanged (`0 > e` for `e < 0`); None if not a single comparison"""
+    if not (isinstance(c, ast.Compare) and len(c.ops) == 1):
+        return None
+    t = type(c.ops[0])
+    m = _FLIP.get(t, t if t in (ast.Eq, ast.NotEq) else None)
+    if m is None:
+        return None
+    return ast.Compare(left=c.comparators[0], ops=[m()], comparators=[c.left])
+
+
+def oriented(c, right):
+    """c or its mirror image, whichever has `right` (text) as its right operand; None if neither"""
+    for x in (c, mirrored(c)):
+        if x is not None and U(x.comparators[0]) == right:
+            return x
+    return None
+
+
+def both_texts(e):
+    """texts of e with every single comparison inside also written the other way round (for containment tests)"""
+    out = [U(e)]
+
+    class M(ast.NodeTransformer):
+        def visit_Compare(self, n):
+            self.generic_visit(n)
+            return mirrored(n) or n
+    t = M().visit(copy.deepcopy(e))
+    ast.fix_missing_locations(t)
+    out.append(U(t))
+    return out
+
+
 def dual_compare(a, b):
     """a (min arm) and b (max arm) compare the same operands with mirrored operators."""
     ca, cb = cmp_canon(a), cmp_canon(b)
